@@ -20,7 +20,7 @@ RULE = (
     "and real-gas families on uniform/geometric/jittered pressure grids of 8..120 rows (400 in thorough); small "
     "library-built tables), a pressure pair (p_i on/off a node; p_f/p_i uniform in (0.01,0.99) or 1-10^-u, u in "
     "[1,5]), nx 3..400, a time grid (uniform, quadratic, geometric, random log-uniform steps 1e-8.."
-    "1e4, 1..5 very large steps 1e3..1e12, grids with repeated times, non-zero start) and a schedule (none, "
+    "1e4, 1..5 very large steps 1e3..1e12, grids with repeated times, times scattered uniformly over the transient - consecutive steps differing by factors of 10-100 -, non-zero start) and a schedule (none, "
     "constant, stepwise non-increasing, arbitrary within [p_min, p_i]); 2 in 8 cases are an IdealReservoir, 1 in 8 a "
     "TwoPhaseReservoir on the shipped oil+water tables through FlowPropertiesTwoPhase.from_table (admissible "
     "Brooks-Corey sets; tables without positive mobility and storage derivative are discarded). "
